@@ -277,8 +277,14 @@ def triangles(rep, tier, pairs, types):
         t = types[flag]
         return {"t2tost2": SS[N] * TS[N], "st2tost2": SS[N] * SS[N], "t2tot2": TS[N] * TS[N]}[t]
     undecided = []
+    skipped3d = []
     for a, c, b in tri:
         for N in Ns:
+            if N == 3 and (types[a] != "st2tost2" or types[b] != "st2tost2" or types[c] != "st2tost2"):
+                # 3D triangles through a 6x9 or 9x9 storage: the normal forms of 54 to 81 rational functions of 60 symbols take tens of
+                # minutes and gigabytes; they are decided for N = 1, 2 only (same generic code for every N)
+                skipped3d.append("verif_tri_%s_%s_%s_3" % (a, c, b))
+                continue
             na, nb = size(a, N), size(b, N)
             K, F0, F1, s = syms("k", na), syms("f", TS[N]), syms("g", TS[N]), syms("s", SS[N])
             name = "verif_tri_%s_%s_%s_%d" % (a, c, b, N)
@@ -321,4 +327,5 @@ def triangles(rep, tier, pairs, types):
                          % (N, a, b, c, d[0], d[1], c, d[2]))
     rep.extra["triangles"] = ["%s->%s->%s" % t for t in tri]
     rep.extra["triangles_not_decided (eigen-decomposition: DT_DELOG)"] = undecided
+    rep.extra["triangles decided for N = 1, 2 only (storage larger than 6x6)"] = skipped3d
     rep.floor("composition triangles", 20)
